@@ -90,10 +90,12 @@ void mux_stream_off(const pktlist_t *pk, int serial, int policy, int fill, uint6
 /* hand-built pages: 1-3 packets per page, and every few pages a pair A|B where B holds nothing but the tail of a packet begun on A
    (valid Ogg that libogg's own paging almost never produces; page seeks then have to walk backwards from B) */
 void mux_tailpages(const pktlist_t *pk, int serial, uint64_t seed, buf_t *out);
+int  mux_headless_tail(const pktlist_t *pk, int serial, int first, buf_t *out);   /* link data starts with continuation-only pages (see common.c); 0 if not possible */
 typedef struct {
   long off, len; int serial; ogg_int64_t granule; int bos, eos, continued, packets; long pageno;
 } pageinfo_t;
 int  page_scan(const unsigned char *d, size_t n, pageinfo_t **out); /* returns count */
+void mux_add_foreign(const buf_t *link, int fserial, uint64_t seed, int where, buf_t *out);   /* a foreign logical stream multiplexed into one muxed link (see common.c) */
 
 /* ---------- random chained physical streams made by the real encoder ---------- */
 #define VH_MAXLINKS 40
@@ -107,6 +109,7 @@ typedef struct {
 #define GC_MULTICH     2   /* 3..8 channel links occasionally */
 #define GC_MANAGED     4   /* managed-mode links occasionally */
 #define GC_GOFFSET    16   /* some links start at a non-zero granule position */
+#define GC_BEGINTRIM  32   /* some links are begin-trimmed (negative goffset on entry; vh_mux_link lowers every granule position by t < first page's and sets goffset back to 0, nsamples to N-t) */
 #define GC_BIGPAGES    8   /* occasionally a many-channel high-quality link whose pages approach 64 KiB */
 void gen_chain(rng_t *r, int maxlinks, long maxN, int flags, chaindesc_t *d);
 int  build_chain(chaindesc_t *d, buf_t *out, size_t *link_off /*nlinks+1 or NULL*/);   /* may reset d->goffset[i] (see vh_mux_link) */
